@@ -1596,6 +1596,11 @@ func (fx *FnExec) execTypeAssert(x *ssa.TypeAssert) {
 		tag := fx.tagOf(x.AssertedType)
 		ok = fmt.Sprintf("(= (i.tag %s) %d)", v, tag)
 		res = fx.unbox(x.AssertedType, "(i.pay "+v+")")
+		// the payload of an interface of dynamic type T is the box of a T value: boxing what was
+		// unboxed gives the payload back (so re-boxing the asserted value yields the same interface)
+		if bs := fx.sortOf(x.AssertedType); bs != "Int" && bs != "Bool" {
+			fx.assume("(=> " + ok + " (= " + fx.box(x.AssertedType, res) + " (i.pay " + v + ")))")
+		}
 	}
 	if x.CommaOk {
 		okn := fx.define(regName(x)+"_ok", "Bool", ok)
